@@ -132,7 +132,17 @@ def check(case):
     with virtual_time(w.clock):
         vbase = case.get("version_base", 1)
         w.advertise(vbase, steps[0])
-        r = bracket(lambda: AWSElastiCacheHashClient(CFG, socket_module=w.net, use_vpc=use_vpc, use_pooling=case.get("pooling", False),
+        klass = AWSElastiCacheHashClient
+        tunnel = None
+        if case.get("client_class"):
+            # the node clients are instances of a Client subclass that holds a second connection, closed by its own close()
+            from vlib import subclasses
+            tunnel = subclasses.TunnelClient.tunnel_addr
+            if tunnel not in w.net.servers:
+                w.net.add_server(tunnel, McServer(w.clock, name="tunnel"))
+            klass = type("Tunnelled", (AWSElastiCacheHashClient,), {"client_class": subclasses.TunnelClient})
+            labels.append("client_class")
+        r = bracket(lambda: klass(CFG, socket_module=w.net, use_vpc=use_vpc, use_pooling=case.get("pooling", False),
                                                      default_noreply=False, timeout=1, retry_attempts=case.get("retry_attempts", 2)))
         if r[0] == "exc":
             raise Violation(["construction-raises", type(r[1]).__name__], "construction raised %r: %s" % (r[1], desc))
@@ -189,8 +199,13 @@ def check(case):
                                     "after step %d set/get of %r gave %r / %r: %s" % (si, k, a, b, desc))
             def _a(x):
                 return x if isinstance(x, str) else (x[0], int(x[1]))
-            contacted = {_a(e[4]) for e in w.net.log[n0:] if e[3] == "connect"}
-            used = contacted | {_a(s.addr) for s in w.net.sockets if not s.closed and s.addr and s.addr[0] != CFG_HOST}
+            contacted = {_a(e[4]) for e in w.net.log[n0:] if e[3] == "connect"} - {tunnel}
+            used = (contacted | {_a(s.addr) for s in w.net.sockets if not s.closed and s.addr and s.addr[0] != CFG_HOST}) - {tunnel}
+            if tunnel:
+                nt = len([s for s in w.net.sockets if not s.closed and s.addr and _a(s.addr) == tunnel])
+                nn = len([s for s in w.net.sockets if not s.closed and s.addr and _a(s.addr) != tunnel and s.addr[0] != CFG_HOST])
+                if nt != nn:
+                    raise Violation(["stale-connection-open", "second-connection"], "after step %d %d node connections are open but %d of the second connections their clients hold (closed by the client class's own close()): %s" % (si, nn, nt, desc))
             if not used <= want:
                 raise Violation(["contacted-unadvertised"], "after step %d the client talks to %r, advertised are %r: %s" % (si, sorted(used - want), sorted(want), desc))
             if nkeys >= 30 * len(want) and used != want:      # chance of an unused node by luck < 1e-12
@@ -201,12 +216,14 @@ def check(case):
             for s in w.net.sockets:
                 if not s.closed and s.addr and isinstance(s.addr, str):
                     raise Violation(["stale-connection-open"], "socket to %r still open after step %d although the node is not advertised: %s" % (s.addr, si, desc))
-                if not s.closed and s.addr and s.addr[0] != CFG_HOST and (s.addr[0], int(s.addr[1])) not in want:
+                if not s.closed and s.addr and s.addr[0] != CFG_HOST and (s.addr[0], int(s.addr[1])) not in want and (s.addr[0], int(s.addr[1])) != tunnel:
                     raise Violation(["stale-connection-open"], "socket to %r still open after step %d although the node is no longer advertised: %s" % (s.addr, si, desc))
             for s in w.net.sockets:
                 if not s.closed and s.addr and s.addr[0] == CFG_HOST:
                     raise Violation(["endpoint-connection-left-open"], "the connection to the configuration endpoint was left open after step %d: %s" % (si, desc))
         hc.close()
+        if tunnel and w.net.open_sockets():
+            raise Violation(["socket-left-open-after-close"], "sockets to %r left open after close(): %s" % (sorted({str(s.addr) for s in w.net.open_sockets()}), desc))
     sched = case.get("schedule")
     cut_inside = bool(sched) and len(sched) > 1
     return shrunk or cut_inside, labels + (["segmented-reply"] if cut_inside else [])
@@ -249,6 +266,11 @@ def fixed_history_cases(tier, seed):
         for h in ([[0, 1, 2], [0, 1, 2], [1, 2, 3]], [[0], [1], [0, 1]]):
             for pooling in (False, True):
                 yield {"steps": h, "use_vpc": bool(ai % 2), "pooling": pooling, "nkeys": 60, "app_add": {"1": [ai], "2": [ai + 1]} if pooling else {"1": [ai]}}
+    # node clients of a Client subclass that holds a second connection: replaced nodes' clients must be closed through its close()
+    for h in ([[0, 1, 2], [0]], [[0, 1], [2, 3], [0, 1]], [[0, 1, 2, 3], [0, 1, 2, 3], [3]]):
+        for pooling in (False, True):
+            for vpc in (True, False):
+                yield {"steps": h, "use_vpc": vpc, "pooling": pooling, "nkeys": 60, "client_class": "tunnel"}
     # a node fails (and is marked failing / dead by traffic), heals, and discovery runs again
     for h, fb in [([[0, 1, 2], [0, 1, 2]], {"1": [1]}), ([[0, 1, 2], [0, 1, 2, 3]], {"1": [0, 2]}), ([[0, 1], [1], [0, 1]], {"1": [0], "2": [1]}),
                   ([[0, 1, 2], [0, 1, 2], [0, 1, 2]], {"1": [0, 1, 2], "2": [2]}), ([[4, 5], [4, 5]], {"1": [5]})]:
@@ -389,7 +411,7 @@ def history_strategy(tier):
     fb = st.dictionaries(st.sampled_from(["1", "2", "3"]), st.lists(st.integers(0, 7), min_size=1, max_size=3, unique=True), max_size=2)
     return st.fixed_dictionaries({"steps": st.lists(nodes, min_size=1, max_size=6), "use_vpc": st.sampled_from([True, False, 1, 0]), "pooling": st.booleans(),
                                   "nkeys": st.sampled_from([20, 60, 200]), "schedule": sched, "fail_before": fb,
-                                  "app_add": st.one_of(st.none(), st.dictionaries(st.sampled_from(["1", "2", "3"]), st.lists(st.integers(0, 7), min_size=1, max_size=2), max_size=2)),
+                                  "client_class": st.sampled_from([None, None, "tunnel"]), "app_add": st.one_of(st.none(), st.dictionaries(st.sampled_from(["1", "2", "3"]), st.lists(st.integers(0, 7), min_size=1, max_size=2), max_size=2)),
                                   "retry_attempts": st.sampled_from([0, 1, 2]), "version_base": st.sampled_from([1, 1, 8, 9, 98, 99, 65535])})
 
 
